@@ -77,12 +77,24 @@ theorem parseText_never_missing (lo : Lex.Oracles) (rv : List Char → Bool) (te
       · rw [he] at h; cases h
   · rw [ht] at h; cases h
 
-/-- **C14, headline: for every text — any characters, any length, whatever number facts the case ships — parsing answers a
-statement or an error located inside the text.** No hypothesis on the oracles: the `missing` answer of
-`parseText_total_located` cannot occur (`parseText_never_missing`). (Bracket nesting: the recursive-descent functions
-take fuel; `Props/C13` `answer_at_linear_fuel` and `driver_fuel_is_enough` show the fuel the driver hands over suffices for
-every text, so `.fuel` is excluded without a depth bound in the *model*; the depth bound of the property is the machine
-stack of the real parser, D42.) -/
+/-- **C14, headline, a statement about the MODEL: for every text — any characters, any length, whatever number facts the
+case ships — the model's `parseText` answers a statement or an error located inside the text.** No hypothesis on the
+oracles: the `missing` answer of `parseText_total_located` cannot occur (`parseText_never_missing`).
+
+What this does and does not say about the program. The model's recursion is fuelled (`Props/C13` `answer_at_linear_fuel` and
+`driver_fuel_is_enough` show the fuel the driver hands over suffices for every text, so `.fuel` is excluded without any
+depth or length bound *in the model*). The real program recurses on its MACHINE STACK — in the recursive-descent parser
+(once per bracket level), in the lowering of the tree, in the evaluator and in `Drop` (once per level of the TREE) — and the
+machine stack is outside the model. Two consequences, neither of which this theorem covers:
+* FLAT operator chains (`1 + 1 + … + 1`, `a AND a AND …`, `- - - … 1`, `NOT NOT … true`, `x::int::int…`, `a[1][1]…`) have
+  no bracket at all but a tree as deep as they are long: the real program aborts on them from a few hundred (debug build)
+  or about ten thousand (release build) terms on. That is **finding D75** (open, `known_findings.json`), inside the
+  property's "any length"; the C14 and C09 checks exhibit it in child processes and report it as a known finding.
+  List-shaped long inputs (IN lists, array literals, arguments, projections, keys, columns, statements) are handled by
+  loops and are parsed at any length (`harness/src/c14.rs` `long_flat`).
+* BRACKET nesting (note D42: twenty thousand nested parentheses overflow the same stack) is bounded by the property
+  sentence itself ("bracket nesting up to a documented depth bound"); the documented bound is 200 levels, exercised by the
+  C14 check. It is not a finding. -/
 theorem parseText_total (lo : Lex.Oracles) (rv : List Char → Bool) (text : List Char) :
     (∃ s, parseText lo rv text = .stmt s) ∨
     (∃ loc e, parseText lo rv text = .lexError loc e ∧ Inside text loc) ∨
